@@ -500,6 +500,55 @@ def replay(workdir):
     r = run(['--no-dynamic-binding', '-O', 'out2', 'sub/OtherForm.qml'])
     if set(tree(workdir)) - set(b3):
         failed.append({'probe': 'reject-mode-writes-nothing-on-error', 'new': sorted(set(tree(workdir)) - set(b3)), 'why': 'a rejected document produced files'})
+    # a dangling symbolic link at the output path: the link itself is replaced (rename), nothing is created where it points to
+    p3 = os.path.join(workdir, 'proj3')
+    os.makedirs(os.path.join(p3, 'out'))
+    os.makedirs(os.path.join(p3, 'elsewhere'))
+    with open(os.path.join(p3, 'MyForm.qml'), 'w') as f:
+        f.write(doc)
+    for fn in ('myform.ui', 'uisupport_myform.h'):
+        os.symlink(os.path.join('..', 'elsewhere', 'stolen_' + fn), os.path.join(p3, 'out', fn))
+    r = run(['-O', 'out', 'MyForm.qml'], cwd=p3)
+    stolen = sorted(os.listdir(os.path.join(p3, 'elsewhere')))
+    links = [fn for fn in ('myform.ui', 'uisupport_myform.h') if os.path.islink(os.path.join(p3, 'out', fn))]
+    if r.returncode != 0 or stolen or links:
+        failed.append({'probe': 'dangling-symlink-at-the-output-path', 'rc': r.returncode, 'created_outside': stolen, 'still_links': links,
+                       'why': 'an output was written through a symbolic link instead of replacing it: files appear outside the output directory'})
+    # a run killed in the middle of writing (file size limit => SIGXFSZ): each output path is absent / complete old / complete new
+    big = 'import qmluic.QtWidgets\nQWidget {\n QVBoxLayout {\n' + ''.join(f'  QLabel {{ id: label_{i}; text: "text of label number {i}" }}\n' for i in range(400)) + ' }\n}\n'
+    ref = os.path.join(workdir, 'proj4ref')
+    os.makedirs(ref)
+    with open(os.path.join(ref, 'Big.qml'), 'w') as f:
+        f.write(big)
+    run(['-O', 'out', 'Big.qml'], cwd=ref)
+    try:
+        complete_new = open(os.path.join(ref, 'out', 'big.ui'), 'rb').read()
+    except OSError:
+        complete_new = None
+    if complete_new is None or len(complete_new) < 8192:
+        failed.append({'probe': 'kill-reference', 'why': 'the reference translation of the large document failed'})
+    else:
+        for name, old_doc in (('killed-while-creating-a-new-output', None), ('killed-while-replacing-an-existing-output', doc)):
+            p4 = os.path.join(workdir, 'proj4_' + ('new' if old_doc is None else 'old'))
+            os.makedirs(p4)
+            complete_old = None
+            if old_doc is not None:
+                with open(os.path.join(p4, 'Big.qml'), 'w') as f:
+                    f.write(old_doc)
+                run(['-O', 'out', 'Big.qml'], cwd=p4)
+                complete_old = open(os.path.join(p4, 'out', 'big.ui'), 'rb').read()
+            with open(os.path.join(p4, 'Big.qml'), 'w') as f:
+                f.write(big)
+            k = subprocess.run(['sh', '-c', 'ulimit -f 8 && exec "$0" generate-ui --foreign-types "$1" -O out Big.qml', q, meta], cwd=p4, capture_output=True, text=True, env=C.ENV)
+            try:
+                now = open(os.path.join(p4, 'out', 'big.ui'), 'rb').read()
+            except FileNotFoundError:
+                now = None
+            if k.returncode == 0:
+                failed.append({'probe': name, 'why': 'the size-limited run was not killed (probe without effect)', 'rc': k.returncode})
+            elif now not in (complete_old, complete_new):
+                failed.append({'probe': name, 'rc': k.returncode, 'bytes_at_output_path': None if now is None else len(now), 'complete_old': None if complete_old is None else len(complete_old),
+                               'complete_new': len(complete_new), 'why': 'after a run killed while writing, the output path holds neither its complete old nor its complete new content'})
     with open(os.path.join(workdir, 'README.txt'), 'w') as f:
         f.write('qmluic generate-ui ... in proj/ (see the probes in vlib/props/c15.py replay())\n' + json.dumps(failed, indent=1) + '\n')
     return bool(failed), {'failed_probes': failed}
